@@ -67,6 +67,8 @@ def gen_case(rng, tier, avoid):
             if 'dataset_name' not in chans[j]['kwargs'] and chans[i]['name'] != chans[j]['name']:
                 chans[i]['kwargs']['dataset_name'] = chans[j]['name']
                 crossed = True       # (the later channel's dataset name is then made unique by the library: no write(data=) here)
+    if kind == 'inline' and not crossed:
+        gen.alias_arrays(rng, spec.ops, p=0.08)      # one ndarray object given to two channels
     ops, data = spec.ops, None
     if kind != 'inline':
         ops, data = gen.externalize(spec.ops, kind, rng)
